@@ -223,6 +223,8 @@ def implied_refusal(facts, pm, rl, role, key, site):
     return False
 
 
+THOROUGH_FS = ["pt", "none", "serde"]
+
 RULES = [
     ("GRAMMAR", lambda ctx: (rule_grammar(ctx), rule_segments(ctx), rule_qloop(ctx)), 23),
     ("DECODE-ALL", lambda ctx: None, 7),
